@@ -57,7 +57,7 @@ def main():
         "not_applicable": na,
         "notes": "All checks are ./check <ID>: offline cargo build of the harness against /repo's current working tree, run under a watchdog, evidence written by the check binaries and validated. Exit 2 = inconclusive (build failure / watchdog), never a violation. Known findings: /verif/known_findings.txt.",
     }
-    if not na: del m["not_applicable"]
+    # kept even when empty: every one of the 20 properties is claimed, and the empty list says so explicitly
     json.dump(m, open(os.path.join(ROOT, "MANIFEST.json"), "w"), indent=1)
     print("claimed:", [c["property_id"] for c in checks], "na:", len(na))
 main()
